@@ -116,7 +116,7 @@ func writeManifest(root string) {
 	}
 }
 
-var hookCommits = []string{"a713816", "3772002", "7d61760", "d33e9eb", "d4ec52f"}
+var hookCommits = []string{"a713816", "3772002", "7d61760", "d33e9eb", "d4ec52f", "6a5991e", "cd138aa"}
 
 var engineKinds = map[string]string{
 	"wiresim": "byte streams and transports under fragmentation, short I/O and injected failure (rsync, framing, handshakes, logging, stream writers)",
